@@ -509,6 +509,28 @@ def rule_r26(body, hits):
     return body[:start] + rep + body[cl + 1 + tail.end():]
 
 
+def rule_r27(body, hits, idxs):
+    """R27: the n-th `for PAT in X.iter() { B }` (X a BTreeMap) is replaced by the definition of `for`:
+         { let mut __bi = vf_bt_iter(X); loop { match __bi.next() { Some(PAT) => { B } None => break, } } }
+    `vf_bt_iter` is a wrapper whose body is `X.iter()`; its contract ties the iterator to the map's iteration-order
+    sequence (vstd specifies BTreeMap::iter() as an enumeration without an order; std documents ascending key order)."""
+    for n in sorted(idxs, reverse=True):
+        fl = loops(body, ("for",))
+        if n >= len(fl):
+            raise AnchorLost("R27: for-loop #%d not found" % n)
+        ks, ob = fl[n]
+        m = mask(body)
+        hm = re.match(r"for\s+(.*?)\s+in\s+(.*?)\s*\.\s*iter\(\)\s*$", body[ks:ob].rstrip(), re.S)
+        if not hm:
+            raise AnchorLost("R27: for-loop #%d is not `for PAT in X.iter()`" % n)
+        cb = match_close(m, ob)
+        rep = ("{ let mut __bi = vf_bt_iter(%s); loop { match __bi.next() { Some(%s) => {%s} None => break, } } }"
+               % (hm.group(2).strip(), hm.group(1).strip(), body[ob + 1:cb]))
+        body = body[:ks] + rep + body[cb + 1:]
+        hits["R27"] = hits.get("R27", 0) + 1
+    return body
+
+
 def apply_rules(body, rules, hits):
     for r in rules:
         if r not in RULES:
@@ -713,6 +735,48 @@ class Extractor:
         hits = {}
         contract = []
         result_name = None
+        # `onlystmt "<anchor>": <tail>` + `sig: <signature>`: ONE statement of the function (the one an R5 stub stands for
+        # in the unit of the whole function) becomes a function of its own, so that the stub's contract is discharged too
+        for key, val in opts:
+            if key.startswith("onlystmt "):
+                anchor = key.partition(" ")[2].strip().strip('"')
+                nth = [int(v) for kk, v in opts if kk == "nth"]
+                if nth:
+                    ms_ = list(anchor_regex(anchor).finditer(body))
+                    if nth[0] >= len(ms_):
+                        raise AnchorLost("anchor %r: occurrence #%d not found" % (anchor, nth[0]))
+                    mm = ms_[nth[0]]
+                else:
+                    mm = find_unique(body, anchor)
+                mk = mask(body)
+                k = mm.start()
+                depth = 0
+                if re.match(r"(for|while|loop|if)\b", mk[k:]):
+                    while not (mk[k] == "{" and depth == 0):
+                        if mk[k] in "([":
+                            depth += 1
+                        elif mk[k] in ")]":
+                            depth -= 1
+                        k += 1
+                    k = match_close(mk, k)
+                else:
+                    while True:
+                        ch = mk[k]
+                        if ch in "([{":
+                            depth += 1
+                        elif ch in ")]}":
+                            depth -= 1
+                        elif ch == ";" and depth == 0:
+                            break
+                        k += 1
+                stmt = body[mm.start():k + 1]
+                sg = [v for kk, v in opts if kk == "sig"]
+                if not sg:
+                    raise TemplateError("onlystmt needs sig:")
+                sig = sg[0].strip()
+                body = "{\n        " + stmt + "\n        " + val.strip() + "\n    }"
+                raw = stmt
+                hits["R5-lift"] = hits.get("R5-lift", 0) + 1
         # constants of the same file/module referenced by the function are part of its meaning (a missing const in a
         # `match` pattern would silently become a catch-all binding): pull their definitions in verbatim
         for ident in sorted(set(re.findall(r"\b[A-Z][A-Z0-9_]{2,}\b", mask(raw)))):
@@ -778,7 +842,7 @@ class Extractor:
             hits["R17"] = hits.get("R17", 0) + 1
         for key, val in opts:
             if key == "prerules":
-                body = apply_rules(body, [r for r in val.split() if r not in ("R14", "R15", "R16", "R18", "R22", "R24", "R25", "R26")], hits)
+                body = apply_rules(body, [r for r in val.split() if r not in ("R14", "R15", "R16", "R18", "R22", "R24", "R25", "R26", "R27")], hits)
                 if "R16" in val.split():
                     at = [v for k, v in opts if k == "acctype"]
                     body = rule_r16(body, hits, at[0].strip() if at else None)
@@ -792,6 +856,9 @@ class Extractor:
                     body = rule_r25(body, hits)
                 if "R26" in val.split():
                     body = rule_r26(body, hits)
+                if "R27" in val.split():
+                    bt = [v for k, v in opts if k == "btfor"]
+                    body = rule_r27(body, hits, [int(x) for x in (bt[0].split() if bt else ["0"])])
                 if "R14" in val.split():
                     body = rule_r14(body, hits)
                 if "R15" in val.split():
@@ -805,7 +872,7 @@ class Extractor:
         for key, val in opts:
             if key in ("requires", "ensures", "decreases"):
                 contract.append((key, val.strip().rstrip(",")))
-            elif key in ("rules", "prerules", "mapresbody", "acctype", "mutparam") or key.startswith("r17call "):
+            elif key in ("rules", "prerules", "mapresbody", "acctype", "mutparam", "sig", "btfor", "nth") or key.startswith(("r17call ", "onlystmt ")):
                 pass
             elif key.startswith(("closure ", "closureopt ")):
                 if cl is None:
@@ -1057,7 +1124,7 @@ class Extractor:
                     d2 = s2[3:]
                     if d2.strip() == "end":
                         break
-                    mk = re.match(r"\s{0,3}((?:closureopt|closure|forloop|opaquefor|beforefor|forstart|forend|loopstart|loopend|beforeloop|afterloop|loop|r17call)\s+\d+|before\s+\"[^\"]*\"|after\s+\"[^\"]*\"|opaque\s+\"[^\"]*\"|\w+):(.*)$", d2)
+                    mk = re.match(r"\s{0,3}((?:closureopt|closure|forloop|opaquefor|beforefor|forstart|forend|loopstart|loopend|beforeloop|afterloop|loop|r17call)\s+\d+|before\s+\"[^\"]*\"|after\s+\"[^\"]*\"|opaque\s+\"[^\"]*\"|onlystmt\s+\"[^\"]*\"|\w+):(.*)$", d2)
                     if mk and not d2.startswith("     "):
                         opts.append([mk.group(1), mk.group(2)])
                     else:
